@@ -13,6 +13,11 @@ import (
 // replayTests maps a function key to the replay test (in /verif/replay) that exercises the REAL
 // function on a concrete input space and evaluates its contract clauses.
 var replayTests = map[string]string{
+	"wire:Load":                              "TestReplay_Load|TestReplay_frontend",
+	"wire:verifyCalls":                       "TestReplay_frontend",
+	"wire:processStructLiteralProvider":      "TestReplay_frontend",
+	"wire:processFuncProvider":               "TestReplay_frontend",
+	"wire:verifyAcyclic":                     "TestReplay_frontend",
 	"wire:(*injectorGen).funcProviderCall":   "TestReplay_funcProviderCall",
 	"wire:injectPass":                        "TestReplay_generate",
 	"wire:(*injectorGen).structProviderCall": "TestReplay_generate",
@@ -26,20 +31,20 @@ var replayTests = map[string]string{
 	"wire:processFieldsOf":                   "TestReplay_generate",
 	"wire:processValue":                      "TestReplay_generate",
 	"wire:generateInjectors":                 "TestReplay_generate",
-	"wire:funcOutput":                        "TestReplay_funcOutput",
-	"wire:buildProviderMap":                  "TestReplay_frontend",
-	"wire:buildProviderMap$1":                "TestReplay_frontend",
-	"wire:verifyArgsUsed":                    "TestReplay_verifyArgsUsed",
-	"wire:checkField":                        "TestReplay_frontend",
-	"wire:isPrevented":                       "TestReplay_frontend",
-	"wire:solve":                             "TestReplay_generate",
-	"wire:(*gen).inject":                     "TestReplay_generate",
-	"wire:processStructProvider":             "TestReplay_frontend",
+	"wire:funcOutput":                        "TestReplay_generate|TestReplay_frontend",
+	"wire:buildProviderMap":                  "TestReplay_generate|TestReplay_frontend",
+	"wire:buildProviderMap$1":                "TestReplay_generate|TestReplay_frontend",
+	"wire:verifyArgsUsed":                    "TestReplay_frontend",
+	"wire:checkField":                        "TestReplay_generate|TestReplay_frontend",
+	"wire:isPrevented":                       "TestReplay_generate|TestReplay_frontend",
+	"wire:solve":                             "TestReplay_generate|TestReplay_frontend",
+	"wire:(*gen).inject":                     "TestReplay_generate|TestReplay_frontend",
+	"wire:processStructProvider":             "TestReplay_generate|TestReplay_frontend",
 	"wire:bindShouldUsePointer":              "TestReplay_frontend",
 	"wire:(*objectCache).get":                "TestReplay_frontend",
 	"wire:copyAST$1":                         "TestReplay_copyAST",
 	"wire:processInterfaceValue":             "TestReplay_frontend",
-	"wire:processBind":                       "TestReplay_frontend",
+	"wire:processBind":                       "TestReplay_generate|TestReplay_frontend",
 	"wire:zeroValue":                         "TestReplay_zeroValue",
 	"main:(*diffCmd).Execute":                "TestReplay_diffCmd",
 	"main:(*genCmd).Execute":                 "TestReplay_genCmd",
@@ -84,7 +89,7 @@ func runConcretiser(v *Verifier, prop string, ob *Obligation, rp *Replay) {
 	ov, _ := json.Marshal(map[string]interface{}{"Replace": repl})
 	ovPath := filepath.Join(tmp, "ov.json")
 	os.WriteFile(ovPath, ov, 0644)
-	cmd := exec.Command("go", "test", "-overlay", ovPath, "-vet=off", "-count=1", "-timeout", "120s", "-run", "^"+test+"$", "./"+pkgDir)
+	cmd := exec.Command("go", "test", "-overlay", ovPath, "-vet=off", "-count=1", "-timeout", "120s", "-run", "^("+test+")$", "./"+pkgDir)
 	cmd.Dir = v.RepoDir
 	clauseID := ""
 	if m := clauseRe.FindStringSubmatch(ob.Name); m != nil {
